@@ -198,7 +198,12 @@ func (fr *Frame) run(st0 *State, pc0 Term) {
 				for _, p := range preds {
 					for i, bp := range b.Preds {
 						if bp == p {
-							vs = append(vs, fr.get(fr.outSt[p], phi.Edges[i]))
+							if _, isConst := phi.Edges[i].(*ssa.Const); isConst {
+								// constants (nil slices, zero values) are materialised in the merged state
+								vs = append(vs, fr.get(st, phi.Edges[i]))
+							} else {
+								vs = append(vs, fr.get(fr.outSt[p], phi.Edges[i]))
+							}
 							break
 						}
 					}
@@ -529,12 +534,12 @@ func (fr *Frame) havocLoop(li *LoopInfo, st *State) {
 			case vSlice:
 				c := e.fresh("h_"+r.Name, cv.S)
 				e.assumeTypeInv(c, nil)
-				nv := e.wrap(st, c, cv.R.Label)
+				nv := e.wrapOwn(st, c, labelOf(cv), cv.R.Label)
 				st.cell[r] = nv
 			case vMap:
 				c := e.fresh("h_"+r.Name, cv.S)
 				e.assumeTypeInv(c, nil)
-				st.cell[r] = e.wrap(st, c, cv.R.Label)
+				st.cell[r] = e.wrapOwn(st, c, labelOf(cv), cv.R.Label)
 			}
 		case 1:
 			if old, ok := st.mem[r]; ok {
